@@ -48,16 +48,4 @@ def replay(path):
     if doc.get("engine") == "system2":
         from props import system2_common
         return system2_common.replay(PROP, path, doc)
-    scn = doc.get("scenario")
-    if not scn:
-        raise vlib.Inconclusive("trace finding: rerun `bin/check %s`" % PROP)
-    scen = os.path.join(vlib.sub("scn"), "one.ndjson")
-    with open(scen, "w") as f:
-        f.write(json.dumps(scn) + "\n")
-    out = vlib.replay(doc.get("engine", "sync"), scen, nshards=1, timeout=120)
-    if out.errors:
-        raise vlib.Inconclusive(str(out.errors))
-    if out.failures or out.crashes or out.timeouts:
-        print("VIOLATION property=%s replay=%s" % (PROP, path))
-        return 1
-    return 0
+    return sc.replay_scenario(PROP, path, doc)
